@@ -75,8 +75,29 @@ def toy_replay(ctx, uni, mp, g, frac):
     return traces
 
 
+def tlaps_agreement(ctx):
+    """The algebra of C01 for EVERY group: a TLAPS proof (spec/proofs/AgreementProof.tla) over the group laws that
+    MC_Axioms checks for the specification's operations and C13 validates for the code.  Complementary to TLC, which
+    enumerates toy groups only; recorded in the evidence, not decisive for the verdict (if tlapm is unavailable the
+    TLC parts still decide)."""
+    import subprocess, shutil as _sh
+    work = os.path.join(scratch(), "tlaps")
+    os.makedirs(work, exist_ok=True)
+    _sh.copy(os.path.join(VERIF, "spec", "proofs", "AgreementProof.tla"), work)
+    try:
+        r = subprocess.run(["tlapm", "--cleanfp", "AgreementProof.tla"], cwd=work, capture_output=True, text=True, timeout=600)
+        out = r.stdout + r.stderr
+        m = re.search(r"All (\d+) obligations proved", out)
+        ctx.cov["tlaps_agreement_lemma"] = {"obligations_proved": int(m.group(1))} if m else {"status": "not proved", "output": out[-400:]}
+        if not m and "obligation" in out:
+            raise MachineryError("TLAPS no longer proves spec/proofs/AgreementProof.tla:\n" + out[-1500:])
+    except (OSError, subprocess.TimeoutExpired) as e:
+        ctx.cov["tlaps_agreement_lemma"] = {"status": "tlapm unavailable: %s" % type(e).__name__}
+
+
 def run(ctx):
     thorough = ctx.tier == "thorough"
+    tlaps_agreement(ctx)
     for m in (THOROUGH_INTERLEAVED if thorough else QUICK_INTERLEAVED):
         interleaved(ctx, *m)
     for m in (THOROUGH_SEQ if thorough else QUICK_SEQ):
